@@ -82,7 +82,7 @@ def _kclass(k, n):
 # ---------------------------------------------------------------------------------------------------
 # cases
 # ---------------------------------------------------------------------------------------------------
-def case_straight(d, n, k, thr, srt, ret):
+def case_straight(d, n, k, thr, srt, ret, mono=None):
     from sknetwork.hierarchy import cut_straight
     dt = dd.enc_dendro(d)
     impl = _call(lambda: _enc_cut(cut_straight(d.copy(), n_clusters=k, threshold=thr, sort_clusters=srt,
@@ -98,6 +98,10 @@ def case_straight(d, n, k, thr, srt, ret):
         nontriv = 1 < kk < n
     sig = {'entry': 'cut_straight', 'n_clusters': _kclass(k, n), 'threshold': thr is not None,
            'return_dendrogram': ret}
+    if mono is None:
+        mono = dd.is_mono_paths(d, n)
+    if not mono:
+        sig['mono'] = False            # a child merge higher than its parent somewhere (valid, but see F24)
     desc = {'f': 'cut_straight', 'dendrogram': _ddesc(d), 'n_clusters': k, 'threshold': None if thr is None else dd.enc_ht(thr),
             'sort_clusters': srt, 'return_dendrogram': ret}
     c = Case(('straight', dt, k, thr, srt, ret), sig, run, impl, spec, nontriv, desc, canon='labels')
@@ -309,13 +313,12 @@ def cases_for_dendro(ctx, d, n, rng, full, mono):
     out = []
     ks = [None] + list(range(0, n + 2))
     thrs = thresholds_for(d, rng, full)
-    combos = [(k, thr, srt, ret) for k in ks for thr in thrs for srt in (True, False) for ret in (False, True)
-              if not (ret and not mono)]
+    combos = [(k, thr, srt, ret) for k in ks for thr in thrs for srt in (True, False) for ret in (False, True)]
     if not full:
         must = [c for c in combos if c[0] in (1, n) and c[1] is None and c[2]]
         combos = rng.sample(must, min(2, len(must))) + rng.sample(combos, min(7, len(combos)))
     for k, thr, srt, ret in combos:
-        out.append(case_straight(d, n, k, thr, srt, ret))
+        out.append(case_straight(d, n, k, thr, srt, ret, mono))
     combos = [(m, srt, ret) for m in range(1, n + 2) for srt in (True, False) for ret in (False, True)]
     if not full:
         combos = rng.sample(combos, min(4, len(combos)))
